@@ -285,10 +285,19 @@ func (c *evCase) run(expectDels int) evRun {
 	rec := eng.Attach(s)
 	defer s.Stop()
 	out := evRun{Emits: make([]evEmit, 0, len(c.Rows)+1)}
+	pauses := 0
 	emit := func(r evRow) {
 		out.Emits = append(out.Emits, evEmit{DelsAtStart: rec.NDeliveries()})
 		rec.Emit(c.rowMap(r))
 		switch c.Feed {
+		case "slow":
+			// a producer that pauses for longer than the watermark's own update period (200 ms) a few times
+			if len(out.Emits)%3 == 1 && pauses < 7 {
+				pauses++
+				time.Sleep(230 * time.Millisecond)
+			} else {
+				time.Sleep(150 * time.Microsecond)
+			}
 		case "paced":
 			time.Sleep(150 * time.Microsecond)
 		case "step":
